@@ -47,6 +47,12 @@ CLAIMED = {
  "C18": ("call-graph funnel + argument resolution of the source list and Params literal + dominance/def-use ordering rules + extension truth table (go/ssa)",
          "Decides which calls happen in which order with which arguments in the single function all ez entry points funnel into: sources = (Blank, env, flags) over the caller's defaults; Params delays verification and suppresses global callbacks (constants) and forwards both callbacks; ConfigPath is evaluated on the View of that first stack; the file source (watching iff WatchConfigFile) enters only via SetSource on that Blank; every success return follows a tested EnableVerification, which on the file path follows a successful SetSource; one Events value is drained; failures are returned; extension table; alias first and set-to-slice in the file chain.",
          "Not decided: values. Relies on C04/C07/C09 (dials), C14 (alias placement), C20 (Blank) for what the called operations guarantee."),
+ "C13": ("sibling agreement of four decoder pipelines (def-use shape + dominance) + resolved mangler chains + entry-point table (go/ssa)",
+         "Decides that the JSON/YAML/TOML/Cue decoders are instances of one pipeline differing only in a table: all bytes read are handed to the library's whole-document entry point; the target is the address of the all-unset Translate() value of a transformer over the requested type; the same value is reverse-translated with the same transformer; every error (read, translate, unmarshal/compile, reverse) is returned with a zero Value; each chain copies the dials tag to the tag its library reads without overriding an existing one; JSON/Cue substitute Duration by ParsingDuration (string via ParseDuration, number via Int64, anything else an error) before the tag copy.",
+         "Not decided: cross-format equality of decoded values and rejection of every malformed document (third-party parsers at run time; trusted)."),
+ "C10": ("sibling agreement of every Mangle/Unmangle pair (arity vs tuple-index provenance) + induction/offset arithmetic of the Transformer + universally-quantified flag formulas (go/ssa)",
+         "Decides the positional bookkeeping that makes reversal lossless: for all 9 manglers every tuple index read on the Unmangle side is admitted by Mangle's arities or a dominating length test (variable indices bounded or count-checked); ReverseTranslate's window and offset use the same len(state.out), manglers are unwound in descending order of how they were applied, states are stored at their field index; struct recursion excludes TextUnmarshalers by value and by pointer everywhere; flatten's any-child-set flag is old||nested / true-under-non-nil and gates the parent; rebuilt containers are make-built and zero results only follow nil tests; ShouldRecurse table.",
+         "Not decided: translate/fill/reverse results on arbitrary reflect-built types (run-time computation)."),
 }
 
 NOT_YET = {}
